@@ -69,7 +69,9 @@ class RingHarness(object):
                                   'hash_type': self.hash_type}, name='ring')
     self.e1 = z3.Function('e1', Node, z3.IntSort())
     self.e2 = z3.Function('e2', Node, z3.IntSort())
-    bis = Namespace('bisect', {'bisect_left': Builtin('bisect_left', Bisect.bisect_left)})
+    # for a search key (p, ()) -- smaller than every entry (p, node) -- bisect_right, bisect and
+    # bisect_left all return the first index whose position is >= p
+    bis = Namespace('bisect', {n: Builtin(n, Bisect.bisect_left) for n in ('bisect_left', 'bisect_right', 'bisect')})
     self.ip = Interp(ctx, index, bindings={H: {'bisect': bis}}, specs=specs)
     self.ip.ext['new_set'] = lambda ip: SymSet.empty(ip, TNode, 'local_nodes')
     self.ip.ext[('gen_out', CHR + '.get_nodes')] = lambda ip: SymSeq.empty(TNode, 'out')
